@@ -287,6 +287,7 @@ class Result:
         self.traces = 0
         self.notes = []
         self.rule = ""
+        self.shard, self.nshards = 0, 1
 
     def count(self, key, n=1):
         self.hist[key] = self.hist.get(key, 0) + n
@@ -314,3 +315,62 @@ def jsonable(o):
     if isinstance(o, (int, str, bool)) or o is None:
         return o
     return repr(o)
+
+
+# ---------------------------------------------------------------- helpers used by the checks
+def size(res, quick, thorough):
+    return quick if res.tier == "quick" else thorough
+
+
+def impl_teams(g, cls=None):
+    """run rate on the implementation; -> list of teams of (mu, sigma) or raises"""
+    model = build_model(g, cls)
+    teams = build_teams(model, g)
+    out = call_rate(model, teams, g)
+    return [[(p.mu, p.sigma) for p in t] for t in out]
+
+
+def prior_scales(g):
+    tau = g["tau"] if g["tauopt"] is None else g["tauopt"]
+    return [[math.sqrt(s * s + tau * tau) for (_, s) in t] for t in g["teams"]]
+
+
+def teams_close(g, A, B, rel):
+    """A, B: teams of (mu, sigma) in the slot layout of g; None or description"""
+    sc = prior_scales(g)
+    if [len(t) for t in A] != [len(t) for t in B]:
+        return "shape differs"
+    for i, (ta, tb) in enumerate(zip(A, B)):
+        for j, (x, y) in enumerate(zip(ta, tb)):
+            if not close(x[0], y[0], rel, g["beta"]):
+                return "slot [%d][%d] mu %r vs %r (rel %.3g)" % (i, j, x[0], y[0], rel)
+            if not close(x[1], y[1], rel, sc[i][j]):
+                return "slot [%d][%d] sigma %r vs %r (rel %.3g)" % (i, j, x[1], y[1], rel)
+    return None
+
+
+def corr_games(res, games, kind_on_mismatch, label, drv=None):
+    """implementation vs the model driver on rate games; records mismatches; returns
+    list of (game, impl, model)"""
+    drv = drv or Driver()
+    outs = drv.run([rate_line(g) for g in games])
+    results = []
+    for g, o in zip(games, outs):
+        impl = run_impl_rate(g)
+        model = parse_rate_out(o)
+        res.traces += 1
+        mm = compare_rate(g, impl, model)
+        if mm:
+            res.fail(kind_on_mismatch, "%s: implementation and model disagree: %s" % (label, mm),
+                     dict(type="game", game=g))
+        results.append((g, impl, model))
+    return results
+
+
+def describe(res, g):
+    res.count("kind_" + g["kind"])
+    res.count("teams_%d" % len(g["teams"]))
+    res.count("ties" if has_ties(g) else "no_ties")
+    res.count("outcome_" + g["oc"][0])
+    mx = max(len(t) for t in g["teams"])
+    res.count("maxteamsize_%d" % mx)
